@@ -361,6 +361,83 @@ def hexlooking_indexes():
     return res
 
 
+ISSUERS = ["https://idpA.c14.example/idp", "https://idpB.c14.example/idp", "urn:c14:idp:C"]
+RND = b"r" * 16          # what saml2.entity.rndbytes returns while a history runs (makes handles reproducible)
+
+
+def gen_md_version(rng, prev=None):
+    """{entity id: [[index, location], ...]} — a fresh one, or `prev` with endpoints moved, indexes
+    swapped or renumbered, an entity removed or added, or unchanged."""
+    if prev is None or rng.randrange(6) == 0:
+        v = {}
+        for k, eid in enumerate(ISSUERS):
+            if rng.randrange(5) == 0:
+                continue
+            idxs = rng.sample([0, 1, 2, 3, 7, 10, 15, 16, 171, 255, 256], rng.randint(0, 4))
+            v[eid] = [[str(ix), "https://h%d.c14.example/ars/%s/%d" % (k, ix, rng.randrange(1000))] for ix in idxs]
+        return v
+    v = {e: [list(ep) for ep in eps] for e, eps in prev.items()}
+    c = rng.randrange(7)
+    cands = [e for e in v if v[e]]
+    if c == 0 or not cands:
+        return v                                             # same metadata again
+    e = rng.choice(cands)
+    if c == 1:
+        for ep in v[e]:                                      # every endpoint moved
+            ep[1] = ep[1] + "/moved%d" % rng.randrange(100)
+    elif c == 2 and len(v[e]) > 1:
+        a, b = rng.sample(range(len(v[e])), 2)               # two indexes swapped
+        v[e][a][0], v[e][b][0] = v[e][b][0], v[e][a][0]
+    elif c == 3:
+        for ep in v[e]:                                      # renumbered
+            ep[0] = str((int(ep[0]) + 1) % 256)
+    elif c == 4:
+        del v[e]                                             # entity gone
+    elif c == 5:
+        missing = [x for x in ISSUERS if x not in v]
+        if missing:                                          # entity (back) in
+            v[missing[0]] = [[str(ix), "https://new.c14.example/ars/%d" % ix] for ix in rng.sample([0, 1, 2, 10], 2)]
+        else:
+            v[e] = v[e][1:]                                  # an endpoint withdrawn
+    else:
+        v[e].reverse()                                       # document order changed
+    return v
+
+
+def md_store(v):
+    return [{"sourceid": hashlib.sha1(e.encode("utf-8")).hexdigest(), "descriptors": [eps]} for e, eps in v.items() if eps]
+
+
+def gen_history(rng):
+    v = gen_md_version(rng)
+    versions = [v]
+    steps = []
+    issued = 0
+    for _ in range(rng.randint(2, 8)):
+        c = rng.randrange(10)
+        if c < 5 or not issued and c < 8:
+            eid = rng.choice(ISSUERS)
+            pub = [int(ep[0]) for vv in versions for ep in vv.get(eid, [])]
+            k = rng.randrange(10)
+            idx = rng.choice(pub) if pub and k < 6 else rng.choice([0, 1, 2, 5, 10, 16, 171, 255]) if k < 9 else rng.choice([256, 12337, -1])
+            msg = "<samlp:Response xmlns:samlp=\"%s\" ID=\"id-%d\"/>" % (SAMLP, rng.randrange(10 ** 6))
+            steps.append({"k": "issue", "entity_id": eid, "sourceid": hashlib.sha1(eid.encode("utf-8")).hexdigest(),
+                          "handle": hashlib.sha1(msg.encode("utf-8") + RND).hexdigest(), "idx": idx, "msg": msg,
+                          "dest": rng.choice(["https://sp.c14.example/acs/artifact", "https://sp.c14.example/acs?x=1#f"]),
+                          "rs": gen_relay(rng) if rng.randrange(3) == 0 else "rs"})
+            if 0 <= idx <= 255:
+                issued += 1
+        elif c < 8:
+            v = gen_md_version(rng, v)
+            versions.append(v)
+            steps.append({"k": "reload", "md": v, "store": md_store(v)})
+        else:
+            steps.append({"k": "resolve", "i": rng.randrange(max(issued, 1) + (rng.randrange(6) == 0))})
+    if issued and not any(s["k"] == "resolve" for s in steps):
+        steps.append({"k": "resolve", "i": rng.randrange(issued)})
+    return {"op": "art_history", "md": versions[0], "store": md_store(versions[0]), "steps": steps}
+
+
 def inflate_or_none(b):
     try:
         return zlib.decompress(b, -15)
@@ -615,6 +692,11 @@ def gen_cases(rng, tier):
         if c == 3:
             art = art[:-2] + rng.choice(["", "=", "é"])
         yield {"op": "art_dest", "art": art, "ents": ents, "store": store_json(ents)}
+    # ---- histories through the public glue: Entity.use_artifact -> apply_binding(HTTP-Artifact) ->
+    #      receiver.artifact2destination, with reload_metadata in between
+    for i in range(n(70, 600)):
+        yield gen_history(rng)
+
     his = range(256) if not q else sorted(set([0, 9, 10, 13, 32, 43, 45, 48, 57, 65, 70, 71, 95, 97, 102, 103, 255] + [rng.randrange(256) for _ in range(16)]))
     for hi in his:
         yield {"op": "art_fields", "hi": hi}
@@ -679,6 +761,21 @@ def _sp_with(ents):
                             "ars": [(S.BINDING_SOAP, loc, idx) for idx, loc in e["eps"]]}} for e in ents]
         cache[key] = S.make_sp(S.sp_config(idp_entities=idps))
     return cache[key]
+
+
+def _md_entities(v):
+    ents = [{"entity_id": e, "idpsso": {"keys": [("signing", "idp_sign")], "sso": [(S.BINDING_REDIRECT, "https://x.c14.example/sso")],
+                                        "ars": [(S.BINDING_SOAP, loc, idx) for idx, loc in eps]}} for e, eps in v.items()]
+    # a federation member that never issues artifacts keeps the document non-empty
+    return ents + [{"entity_id": "https://other.c14.example/idp",
+                    "idpsso": {"keys": [("signing", "idp_sign")], "sso": [(S.BINDING_REDIRECT, "https://other.c14.example/sso")]}}]
+
+
+def _issuer(eid):
+    cache = _state.setdefault("issuers", {})
+    if eid not in cache:
+        cache[eid] = S.make_idp(S.idp_config(entityid=eid))
+    return cache[eid]
 
 
 def _raw_query(url):
@@ -812,8 +909,12 @@ def run_impl(case):
             unr = _unravel(payload, BINDING_HTTP_POST)
         else:
             unr = hx(u8(payload))
-        return {"html": hx(u8(page)), "fields": fields, "action": hx(u8(p.actions[0])) if p.actions else None,
-                "unraveled": unr}
+        out = {"html": hx(u8(page)), "fields": fields, "action": hx(u8(p.actions[0])) if p.actions else None,
+               "unraveled": unr}
+        if case["via"] == "apply_binding":     # what the entity tells its caller besides the page
+            out["info_url"] = hx(u8(str(info.get("url")))) if info.get("url") is not None else None
+            out["method"] = info.get("method")
+        return out
     if op == "unravel":
         b = {"post": BINDING_HTTP_POST, "redirect": BINDING_HTTP_REDIRECT, "artifact": BINDING_HTTP_ARTIFACT}[case["binding"]]
         return {"out": _unravel(case["txt"], b)}
@@ -838,7 +939,11 @@ def run_impl(case):
         else:
             unr = _unravel(v, BINDING_HTTP_REDIRECT)
         rsv = _last(params, "RelayState")
-        return {"url": hx(u8(url)), "params": params, "unraveled": unr, "relay": hx(u8(rsv)) if rsv is not None else None}
+        out = {"url": hx(u8(url)), "params": params, "unraveled": unr, "relay": hx(u8(rsv)) if rsv is not None else None}
+        if case["via"] == "apply_binding":
+            out["info_url"] = hx(u8(str(info.get("url")))) if info.get("url") is not None else None
+            out["method"] = info.get("method")
+        return out
     if op == "artifact_url":
         ent = _entity()
         if case["via"] == "use_http_artifact":
@@ -888,6 +993,39 @@ def run_impl(case):
     if op == "art_dest":
         sp = _sp_with(case["ents"])
         return {"dest": _dest_json(lambda: sp.artifact2destination(case["art"], "idpsso"))}
+    if op == "art_history":
+        import saml2.entity as entity_mod
+
+        receiver = S.make_sp(S.sp_config(idp_entities=_md_entities(case["md"])))
+        saved = entity_mod.rndbytes
+        entity_mod.rndbytes = lambda *a, **k: RND
+        obs, seen = [], []
+        try:
+            for st in case["steps"]:
+                if st["k"] == "issue":
+                    issuer = _issuer(st["entity_id"])
+                    ok, art = _try(lambda: issuer.use_artifact(st["msg"], st["idx"]))     # legitimately: ValueError (index range)
+                    if not ok or not isinstance(art, str):
+                        obs.append({"art": None, "dest": None, "carried": None, "stored": False})
+                        continue
+                    ok, info = _try(lambda: issuer.apply_binding(BINDING_HTTP_ARTIFACT, art, st["dest"], st["rs"], response=True))
+                    carried = _last(_params(info["url"]), "SAMLart") if ok else None
+                    seen.append(carried if carried is not None else art)
+                    obs.append({"art": art, "carried": carried, "stored": issuer.artifact.get(art) == st["msg"],
+                                "dest": _dest_json(lambda: receiver.artifact2destination(seen[-1], "idpsso"))})
+                elif st["k"] == "reload":
+                    conf = {"inline": [S.metadata_xml(_md_entities(st["md"]))]}
+                    ok, r = _try(lambda: receiver.reload_metadata(conf))
+                    obs.append({"reloaded": bool(ok and r)})
+                else:
+                    if st["i"] < len(seen):
+                        art = seen[st["i"]]
+                        obs.append({"dest": _dest_json(lambda: receiver.artifact2destination(art, "idpsso"))})
+                    else:
+                        obs.append({"dest": None})
+        finally:
+            entity_mod.rndbytes = saved
+        return {"obs": obs}
     if op == "art_fields":
         sp = _entity()
         saved = sp.sourceid
@@ -1009,6 +1147,14 @@ def neighbours(case, rng):
 
 
 def shrink(case):
+    if case["op"] == "art_history":
+        steps = case["steps"]
+        if len(steps) > 1:
+            yield dict(case, steps=steps[:-1])
+        for k, st in enumerate(steps):       # dropping an issue step would renumber the later resolutions
+            if st["k"] != "issue" or not any(x["k"] == "resolve" for x in steps[k + 1:]):
+                yield dict(case, steps=steps[:k] + steps[k + 1:])
+        return
     for k in ("rs", "loc", "msg", "thingy", "text"):
         v = case.get(k)
         if isinstance(v, str) and v:
